@@ -42,7 +42,9 @@ def run(F, rep, tier):
         rep.check(bool(ie), "init|id-mismatch-error", "K2 guarded-by", "id mismatch returns InitError", site=f.site())
     # parent == Prior::None
     pc = [c for c in f.calls if c.name == "parent" and c.trait and c.trait.endswith("command::Command")]
-    pc = pat.one(rep, pc, "command.parent()", f)
+    if not pc:
+        rep.violation("init|parentless-guard", "K2 guarded-by", "Transaction::init never inspects command.parent(): an init command with a parent would be accepted", f.site())
+    pc = pc[0] if len(pc) == 1 else None
     if pc:
         sws = [x for x in f.discr_switches("Prior") if "None" in x[1]]
         ok = False
